@@ -94,6 +94,12 @@ UNIT_TRUSTED["daemon_gr_neg"] = [
     "NOT under contract: where the result is used (PeerSession::run / on_established, async), the capability lists themselves (PeerParams::build_local_cap; the remote list is what parse_message decoded)",
 ]
 
+UNIT_TRUSTED["daemon_mrt_conv"] = [
+    "adj_rib_in_to_mrt (daemon/src/mrt.rs), adj_rib_in_to_bmp_update and adj_rib_out_to_bmp_update (daemon/src/bmp.rs) wrapped in place; AdjRibInChange / AdjRibOutChange wrapped as they stand; bgp::Update and mrt::Message mirrored transparently, PathNlri / Nexthop / Attribute / IpAddr / table::Source / mrt::MpHeader opaque",
+    "mrt::MpHeader::new as an uninterpreted constructor mp_header(..) of its six arguments (its fields are private to the packet crate; what it writes is unit packet_mrt); the plain fields of table::Source (it holds atomics) read through accessor shims (R13); `.clone()` of the prefix list / attribute list outlined as vx_clone_m (ASSUMED to return an equal value); `vec![x]` as a verified one-element helper",
+    "NOT under contract: where these values come from (TableManager::insert_route / remove_route, async) and where they go (MrtDumper / BmpClient serve loops, async); daemon/src/mrt.rs dump_table (async)",
+]
+
 UNIT_TRUSTED["packet_negotiate"] = [
     "PeerCodec::negotiate wrapped in place, including its local struct `Raw`, the `parse` closure (five loops under invariants) and the main loop; R11 / R11b helpers with assumed contracts: vx_hm_get_mut (`h.get_mut(f)` as a `&mut` into the map), vx_hm_into_vec (`for (f, rc) in parse(remote)`: the entries of the map, each key once, order unspecified — the statement is split into `let rmap = parse(remote); let rv = ..; for .. in rv`), VxIterS (`v.iter()` on a slice with verified `.any`); vstd's HashMap::{insert, remove}; Family obeys the hash-key model; Family::afi uninterpreted; the type annotation `FnvHashMap<Family, FamilyState>` added to `families` (rustc infers the same); #[verifier::loop_isolation(false)], rlimit(400)",
     "the reference: a family is advertised iff some MultiProtocol capability names it; its ADD-PATH value is the last one listed for it over all ADD-PATH capabilities in order (0 if none), only for advertised families; extended next hop iff the family has AFI 1 and some ExtendedNexthop entry (f, 2) — taken from the code's reading of RFC 7911 / RFC 8950, the property only asks for the mirror image",
@@ -154,8 +160,8 @@ UNIT_TRUSTED["packet_nlri"] = [
 ]
 
 # minimum number of functions that must produce obligations / of must-fail twins that must run
-FLOORS = {"daemon_fsm": 30, "daemon_gr": 4, "daemon_peer_tx": 9, "table_cmp": 20, "packet_validate": 1, "packet_parse": 1, "table_rpki": 5, "table_policy": 13, "daemon_export": 11, "packet_bmp": 6, "packet_mrt": 8, "packet_aspath": 11, "packet_encode": 4, "packet_nlri": 22, "daemon_restart": 7, "packet_negotiate": 1, "table_rslocal": 1, "daemon_peer_cfg": 2, "daemon_gr_neg": 2}
-TWIN_FLOORS = {"daemon_fsm": 8, "daemon_gr": 3, "daemon_peer_tx": 2, "table_cmp": 4, "packet_validate": 1, "packet_parse": 1, "table_rpki": 1, "table_policy": 1, "daemon_export": 1, "packet_bmp": 1, "packet_mrt": 1, "packet_aspath": 1, "packet_encode": 1, "packet_nlri": 1, "daemon_restart": 1, "packet_negotiate": 0, "table_rslocal": 0, "daemon_peer_cfg": 0, "daemon_gr_neg": 0}
+FLOORS = {"daemon_fsm": 30, "daemon_gr": 4, "daemon_peer_tx": 9, "table_cmp": 20, "packet_validate": 1, "packet_parse": 1, "table_rpki": 5, "table_policy": 13, "daemon_export": 11, "packet_bmp": 6, "packet_mrt": 8, "packet_aspath": 11, "packet_encode": 4, "packet_nlri": 22, "daemon_restart": 7, "packet_negotiate": 1, "table_rslocal": 1, "daemon_peer_cfg": 2, "daemon_gr_neg": 2, "daemon_mrt_conv": 3}
+TWIN_FLOORS = {"daemon_fsm": 8, "daemon_gr": 3, "daemon_peer_tx": 2, "table_cmp": 4, "packet_validate": 1, "packet_parse": 1, "table_rpki": 1, "table_policy": 1, "daemon_export": 1, "packet_bmp": 1, "packet_mrt": 1, "packet_aspath": 1, "packet_encode": 1, "packet_nlri": 1, "daemon_restart": 1, "packet_negotiate": 0, "table_rslocal": 0, "daemon_peer_cfg": 0, "daemon_gr_neg": 0, "daemon_mrt_conv": 0}
 
 PLAN = {
     "C01": {"verus": ["daemon_peer_tx", "daemon_export"], "level": "proof",
@@ -178,7 +184,7 @@ PLAN = {
             "fn_filter": {"packet_aspath": ["encode", "encode_wire", "value", "binary", "as_path_has_wide_as", "lemma_seg_any_wide_mono"]}},
     "C02": {"verus": ["table_cmp", "table_rslocal", "packet_aspath"], "level": "proof",
             "fn_filter": {"packet_aspath": ["as_path_length"]}},
-    "C19": {"verus": ["packet_bmp", "packet_mrt"], "level": "proof"},
+    "C19": {"verus": ["packet_bmp", "packet_mrt", "daemon_mrt_conv"], "level": "proof"},
     "C03": {"verus": ["packet_parse", "packet_nlri"], "level": "proof",
             "kani": ["bfd_decode_total_and_exact", "bfd_decode_mustfail", "rtr_frame_length_contract",
                      "rtr_from_bytes_total", "rtr_decode_framing", "bgp_try_parse_framing", "c03_nlri_ipv4", "c03_nlri_ipv6"]},
